@@ -117,9 +117,156 @@ def restoreOnFail (vr : Variant) (snapshot : Asm) : Res → Res
   | some (true, s') => some (true, s')
   | some (false, s') => some (false, if vr.keepFailedAssumptions then s' else snapshot)
 
+abbrev Rec := Asm → List Nat → Nat → Nat → Res
+
+/-- `(Type::Cycle(depth), _)`: resolve on the stack, else `true` ("coinductive reasoning"). -/
+def cycleLeft (rec : Rec) (asm : Asm) (st : List Nat) (d b : Nat) : Res :=
+  match resolveCycle st d with
+  | none => some (true, asm)
+  | some sid => rec asm st sid b
+
+/-- `(_, Type::Cycle(depth))`. -/
+def cycleRight (rec : Rec) (asm : Asm) (st : List Nat) (a d : Nat) : Res :=
+  match resolveCycle st d with
+  | none => some (true, asm)
+  | some sid => rec asm st a sid
+
+/-- `(Type::Union(variants), _)` with a non-empty left union. -/
+def unionLeft (vr : Variant) (mode : Mode) (rec : Rec) (asm : Asm) (st : List Nat) (a b : Nat)
+    (vs : List Nat) : Res :=
+  restoreOnFail vr asm
+    (match mode with
+     | .all => allS (fun s v => rec s st v b) vs ((a, b) :: asm)
+     | .any => anyS (fun s v => rec s st v b) vs ((a, b) :: asm))
+
+/-- `(_, Type::Union(variants))`. -/
+def unionRight (vr : Variant) (rec : Rec) (asm : Asm) (st : List Nat) (a b : Nat) (vs : List Nat) :
+    Res :=
+  restoreOnFail vr asm (anyS (fun s v => rec s (pushStack st b) a v) vs ((a, b) :: asm))
+
+/-- the zipped field loop of the tuple-vs-tuple arm. -/
+def tupleFields (rec : Rec) (st : List Nat)
+    (zipped : List ((Option Name × Nat) × (Option Name × Nat))) (asm : Asm) : Res :=
+  allS (fun s p => if p.1.1 = p.2.1 then rec s st p.1.2 p.2.2 else some (false, s)) zipped asm
+
+/-- `(Type::Tuple(id1), Type::Tuple(id2))`. -/
+def tupleTuple (T : Table) (rec : Rec) (asm : Asm) (st : List Nat) (i1 i2 : Nat) : Res :=
+  if i1 = i2 then some (true, asm)
+  else
+    match T.tuples[i1]?, T.tuples[i2]? with
+    | some info1, some info2 =>
+      if info1.name = info2.name ∧ info1.fields.length = info2.fields.length then
+        tupleFields rec st (info1.fields.zip info2.fields) asm
+      else some (false, asm)
+    | _, _ => some (false, asm)
+
+/-- every partial field exists in the concrete tuple with a related type (`all` of `any`). -/
+def tuplePartFields (rec : Rec) (st : List Nat) (cfs : List (Option Name × Nat))
+    (pfs : List (Name × Nat)) (asm : Asm) : Res :=
+  allS (fun s (pf : Name × Nat) =>
+          anyS (fun s' (cf : Option Name × Nat) =>
+                  if cf.1 = some pf.1 then rec s' st cf.2 pf.2 else some (false, s'))
+               cfs s)
+       pfs asm
+
+/-- `(Type::Tuple(concrete_id), Type::Partial { .. })`. -/
+def tuplePart (T : Table) (rec : Rec) (asm : Asm) (st : List Nat) (c : Nat) (pn : Option Name)
+    (pfs : List (Name × Nat)) : Res :=
+  match T.tuples[c]? with
+  | none => some (false, asm)
+  | some ci =>
+    if pn.isSome ∧ ci.name ≠ pn then some (false, asm)
+    else tuplePartFields rec st ci.fields pfs asm
+
+/-- the name rule of the partial-vs-partial arm. Assignability: a named pattern only admits that
+name (fix 6273050); overlap: only two different names exclude each other (fix f506776). -/
+def nameConflict (vr : Variant) (mode : Mode) (n1 n2 : Option Name) : Bool :=
+  match mode with
+  | .all =>
+    if vr.nameRuleBothOnly then n1.isSome && n2.isSome && decide (n1 ≠ n2)
+    else n2.isSome && decide (n1 ≠ n2)
+  | .any =>
+    if vr.nameRuleAllInAny then n2.isSome && decide (n1 ≠ n2)
+    else n1.isSome && n2.isSome && decide (n1 ≠ n2)
+
+/-- the field loop of the partial-vs-partial arm: `fields1.iter().find(name)` takes the FIRST
+field of self with that name; a field self does not mention fails assignability and is
+unconstrained for overlap (fix 5646380). -/
+def partPartFields (vr : Variant) (mode : Mode) (rec : Rec) (st : List Nat)
+    (fs1 fs2 : List (Name × Nat)) (asm : Asm) : Res :=
+  if vr.partFieldsAnyStrict then
+    allS (fun s (f2 : Name × Nat) =>
+            anyS (fun s' (f1 : Name × Nat) =>
+                    if f1.1 = f2.1 then rec s' st f1.2 f2.2 else some (false, s'))
+                 fs1 s)
+         fs2 asm
+  else
+    allS (fun s (f2 : Name × Nat) =>
+            match fs1.find? (fun f1 => f1.1 == f2.1) with
+            | some f1 => rec s st f1.2 f2.2
+            | none => some (match mode with | .all => false | .any => true, s))
+         fs2 asm
+
+/-- `(Type::Partial { .. }, Type::Partial { .. })`. -/
+def partPart (vr : Variant) (mode : Mode) (rec : Rec) (asm : Asm) (st : List Nat)
+    (n1 : Option Name) (fs1 : List (Name × Nat)) (n2 : Option Name) (fs2 : List (Name × Nat)) : Res :=
+  if nameConflict vr mode n1 n2 then some (false, asm)
+  else partPartFields vr mode rec st fs1 fs2 asm
+
+/-- every partial field exists in the concrete tuple with a related type, partial on the LEFT. -/
+def partTupleFields (rec : Rec) (st : List Nat) (cfs : List (Option Name × Nat))
+    (pfs : List (Name × Nat)) (asm : Asm) : Res :=
+  allS (fun s (pf : Name × Nat) =>
+          anyS (fun s' (cf : Option Name × Nat) =>
+                  if cf.1 = some pf.1 then rec s' st pf.2 cf.2 else some (false, s'))
+               cfs s)
+       pfs asm
+
+/-- `(Type::Partial { .. }, Type::Tuple(id)) if mode == Any` (fix f3628e7); in ALL mode the pair
+falls to `_ => false`. -/
+def partTuple (vr : Variant) (T : Table) (mode : Mode) (rec : Rec) (asm : Asm) (st : List Nat)
+    (pn : Option Name) (pfs : List (Name × Nat)) (c : Nat) : Res :=
+  match mode, vr.noPartTupleArm with
+  | .all, _ => some (false, asm)
+  | .any, true => some (false, asm)
+  | .any, false =>
+    match T.tuples[c]? with
+    | none => some (false, asm)
+    | some ci =>
+      if pn.isSome ∧ ci.name ≠ pn then some (false, asm)
+      else partTupleFields rec st ci.fields pfs asm
+
+/-- one direction of a process type: checked only when both sides know it. -/
+def optRel (rec : Rec) (asm : Asm) (st : List Nat) : Option Nat → Option Nat → Res
+  | some x, some y => rec asm st x y
+  | _, _ => some (true, asm)
+
+/-- `(Type::Process { .. }, Type::Process { .. })`: both sub-checks are always evaluated
+(`let send_ok = …; let receive_ok = …; send_ok && receive_ok`). -/
+def processProcess (rec : Rec) (asm : Asm) (st : List Nat) (s1 r1 s2 r2 : Option Nat) : Res :=
+  match optRel rec asm st s1 s2 with
+  | none => none
+  | some (sendOk, asm1) =>
+    match optRel rec asm1 st r1 r2 with
+    | none => none
+    | some (recvOk, asm2) => some (sendOk && recvOk, asm2)
+
+/-- `(Type::Callable { .. }, Type::Callable { .. })`: the pattern is pushed on the stack;
+parameter contravariant && result covariant && receive contravariant (short-circuit). -/
+def callableCallable (rec : Rec) (asm : Asm) (st : List Nat) (b : Nat)
+    (p1 r1 c1 p2 r2 c2 : Nat) : Res :=
+  match rec asm (pushStack st b) p2 p1 with
+  | none => none
+  | some (false, s1) => some (false, s1)
+  | some (true, s1) =>
+    match rec s1 (pushStack st b) r1 r2 with
+    | none => none
+    | some (false, s2) => some (false, s2)
+    | some (true, s2) => rec s2 (pushStack st b) c2 c1
+
 /-- The `match (self_type, pattern_type)` of `check_type_relation`, arms in source order, with
 the recursive call abstracted as `rec` (so that facts about one unfolding are stated once). -/
-def relStep (vr : Variant) (T : Table) (mode : Mode) (rec : Asm → List Nat → Nat → Nat → Res)
+def relStep (vr : Variant) (T : Table) (mode : Mode) (rec : Rec)
     (asm : Asm) (st : List Nat) (a b : Nat) (ta tb : Ty) : Res :=
   match ta, tb with
   -- empty union on the left: bottom type
@@ -131,118 +278,18 @@ def relStep (vr : Variant) (T : Table) (mode : Mode) (rec : Asm → List Nat →
   | .variable _, _ => some (true, asm)
   | _, .variable _ => some (true, asm)
   | .cycle d1, .cycle d2 =>
-    if d1 = d2 then some (true, asm)
-    else
-      -- falls to the arm `(Type::Cycle(depth), _)`
-      match resolveCycle st d1 with
-      | none => some (true, asm)
-      | some sid => rec asm st sid b
-  | .cycle d, _ =>
-    match resolveCycle st d with
-    | none => some (true, asm)
-    | some sid => rec asm st sid b
-  | _, .cycle d =>
-    match resolveCycle st d with
-    | none => some (true, asm)
-    | some sid => rec asm st a sid
-  | .union vs, _ =>
-    restoreOnFail vr asm
-      (match mode with
-       | .all => allS (fun s v => rec s st v b) vs ((a, b) :: asm)
-       | .any => anyS (fun s v => rec s st v b) vs ((a, b) :: asm))
-  | _, .union vs =>
-    restoreOnFail vr asm (anyS (fun s v => rec s (pushStack st b) a v) vs ((a, b) :: asm))
-  | .tuple i1, .tuple i2 =>
-    if i1 = i2 then some (true, asm)
-    else
-      match T.tuples[i1]?, T.tuples[i2]? with
-      | some info1, some info2 =>
-        if info1.name = info2.name ∧ info1.fields.length = info2.fields.length then
-          allS (fun s (p : (Option Name × Nat) × (Option Name × Nat)) =>
-                  if p.1.1 = p.2.1 then rec s st p.1.2 p.2.2 else some (false, s))
-               (info1.fields.zip info2.fields) asm
-        else some (false, asm)
-      | _, _ => some (false, asm)
-  | .tuple c, .part pn pfs =>
-    match T.tuples[c]? with
-    | none => some (false, asm)
-    | some ci =>
-      if pn.isSome ∧ ci.name ≠ pn then some (false, asm)
-      else
-        allS (fun s (pf : Name × Nat) =>
-                anyS (fun s' (cf : Option Name × Nat) =>
-                        if cf.1 = some pf.1 then rec s' st cf.2 pf.2 else some (false, s'))
-                     ci.fields s)
-             pfs asm
-  | .part n1 fs1, .part n2 fs2 =>
-    -- assignability: a named pattern only admits that name (fix 6273050); overlap: only two
-    -- different names exclude each other (fix f506776)
-    let conflict : Bool :=
-      match mode with
-      | .all =>
-        if vr.nameRuleBothOnly then n1.isSome && n2.isSome && decide (n1 ≠ n2)
-        else n2.isSome && decide (n1 ≠ n2)
-      | .any =>
-        if vr.nameRuleAllInAny then n2.isSome && decide (n1 ≠ n2)
-        else n1.isSome && n2.isSome && decide (n1 ≠ n2)
-    if conflict then some (false, asm)
-    else if vr.partFieldsAnyStrict then
-      allS (fun s (f2 : Name × Nat) =>
-              anyS (fun s' (f1 : Name × Nat) =>
-                      if f1.1 = f2.1 then rec s' st f1.2 f2.2 else some (false, s'))
-                   fs1 s)
-           fs2 asm
-    else
-      -- `fields1.iter().find(name)`: the FIRST field of self with that name; a field self does
-      -- not mention fails assignability and is unconstrained for overlap (fix 5646380)
-      allS (fun s (f2 : Name × Nat) =>
-              match fs1.find? (fun f1 => f1.1 == f2.1) with
-              | some f1 => rec s st f1.2 f2.2
-              | none => some (match mode with | .all => false | .any => true, s))
-           fs2 asm
-  | .part pn pfs, .tuple c =>
-    -- only in overlap mode (fix f3628e7); in ALL mode this pair falls to `_ => false`
-    match mode, vr.noPartTupleArm with
-    | .all, _ => some (false, asm)
-    | .any, true => some (false, asm)
-    | .any, false =>
-      match T.tuples[c]? with
-      | none => some (false, asm)
-      | some ci =>
-        if pn.isSome ∧ ci.name ≠ pn then some (false, asm)
-        else
-          allS (fun s (pf : Name × Nat) =>
-                  anyS (fun s' (cf : Option Name × Nat) =>
-                          if cf.1 = some pf.1 then rec s' st pf.2 cf.2 else some (false, s'))
-                       ci.fields s)
-               pfs asm
-  | .process s1 r1, .process s2 r2 =>
-    -- both sub-checks are always evaluated (`let send_ok = …; let receive_ok = …;`)
-    let sendRes : Res :=
-      match s1, s2 with
-      | some x, some y => rec asm st x y
-      | _, _ => some (true, asm)
-    match sendRes with
-    | none => none
-    | some (sendOk, asm1) =>
-      let recvRes : Res :=
-        match r1, r2 with
-        | some x, some y => rec asm1 st x y
-        | _, _ => some (true, asm1)
-      match recvRes with
-      | none => none
-      | some (recvOk, asm2) => some (sendOk && recvOk, asm2)
-  | .callable p1 r1 c1, .callable p2 r2 c2 =>
-    let st' := pushStack st b
-    -- parameter contravariant && result covariant && receive contravariant (short-circuit)
-    match rec asm st' p2 p1 with
-    | none => none
-    | some (false, s1) => some (false, s1)
-    | some (true, s1) =>
-      match rec s1 st' r1 r2 with
-      | none => none
-      | some (false, s2) => some (false, s2)
-      | some (true, s2) => rec s2 st' c2 c1
+    -- same depth: `true`; otherwise the pair falls to the arm `(Type::Cycle(depth), _)`
+    if d1 = d2 then some (true, asm) else cycleLeft rec asm st d1 b
+  | .cycle d, _ => cycleLeft rec asm st d b
+  | _, .cycle d => cycleRight rec asm st a d
+  | .union vs, _ => unionLeft vr mode rec asm st a b vs
+  | _, .union vs => unionRight vr rec asm st a b vs
+  | .tuple i1, .tuple i2 => tupleTuple T rec asm st i1 i2
+  | .tuple c, .part pn pfs => tuplePart T rec asm st c pn pfs
+  | .part n1 fs1, .part n2 fs2 => partPart vr mode rec asm st n1 fs1 n2 fs2
+  | .part pn pfs, .tuple c => partTuple vr T mode rec asm st pn pfs c
+  | .process s1 r1, .process s2 r2 => processProcess rec asm st s1 r1 s2 r2
+  | .callable p1 r1 c1, .callable p2 r2 c2 => callableCallable rec asm st b p1 r1 c1 p2 r2 c2
   | _, _ => some (false, asm)
 
 /-- `check_type_relation(self_id, pattern_id, lookup, mode, assumptions, type_stack)`. -/
